@@ -257,7 +257,7 @@ def corr_one(res, outs):
                     # masses: the tabulated BH relations have a kink every 0.1 Msun, which costs dopri5 accuracy (1.5e-5 measured at
                     # rtol=1e-10, converging to the model under max_step=1e-3)
                     loose = res.get("tight_level", 12) == 10
-                    e = abs(x - y) / (((6e-4 if loose else 3e-6) if q == "N" else (2e-3 if loose else 1e-4)) * sc + 1e-6)
+                    e = abs(x - y) / (((6e-4 if loose else 1e-5) if q == "N" else (2e-3 if loose else 1e-4)) * sc + 1e-6)
                     worst = max(worst, e)
                     if e > 1 and bad is None:
                         bad = {"t": t, "what": q + c, "bin": j, "real": repr(x), "model": repr(y), "class_total": repr(sc)}
@@ -345,7 +345,8 @@ def check_rows(res):
                         rel = REL[tag] * (1.0 if q == "N" or tag == "d" else 10.0)
                         if tag == "t" and res.get("tight_level", 12) == 10:
                             rel *= 100.0
-                        e = (abs(x - y) - room) / (rel * sc + 1e-6)
+                        floor = 1e-6 if tag == "t" else 0.5 * (up[j] if q == "M" else 1.0)     # default tolerance: half an object per bin
+                        e = (abs(x - y) - room) / (rel * sc + floor)
                         worst[tag] = max(worst[tag], e)
                         if e > 1:
                             return {"clause": "remnants per bin = retained IMF progenitors above the turn-off whose remnant falls in that bin",
